@@ -60,6 +60,10 @@ class SimLoop(base_events.BaseEventLoop):
         self.choice = choice
         self.scheduler = scheduler
         self.busy_pct = busy_pct
+        self.eager = point_mode.endswith("+eager")
+        if self.eager:
+            point_mode = point_mode[:-len("+eager")]
+            self.set_task_factory(asyncio.eager_task_factory)
         self.point_mode = point_mode
         self.step_cap = step_cap
         self.parked = []
